@@ -384,7 +384,8 @@ def oracle(case, sc, o):
     rz = ending[1] if ending else None
     if o['kind'] == 'sol':
         if not o['complete']:
-            dev.append(('writeerr', 'exit status 0 but <stub>.sol is truncated / not parseable: %r' % o.get('raw', '')[:80]))
+            dev.append(('writeerr:devfull' if sc['outpath'] == 'devfull' else 'solfile:malformed',
+                        'exit status 0 but <stub>.sol is truncated / not parseable: %r' % o.get('raw', '')[:80]))
             return dev
         hd = sc['dims']
         if hd is not None and (o['ncons'], o['nvars']) != tuple(hd):
@@ -416,7 +417,7 @@ def oracle(case, sc, o):
     elif o['kind'] == 'stderr':
         if o['exit'] == 0:
             dev.append(('ctorcode' if ending and ending[0] == 'ctor' else 'stderr:exit0', 'Error on stderr but exit status 0'))
-        cannot = (ending is not None and ending[0] in NO_HANDLER) or sc['outpath'] in ('isdir', 'dangling', 'readonly')
+        cannot = (ending is not None and ending[0] in NO_HANDLER) or sc['outpath'] in ('isdir', 'dangling', 'readonly', 'devfull')
         if not cannot:
             dev.append(('stderr:file-was-possible', 'stderr + exit %d although a .sol could have been written' % o['exit']))
     return dev
@@ -586,7 +587,7 @@ class CaseGen:
         # only where the ending is known by construction: with a failing output path the diagnostic
         # (which the classifier would need) is not observable
         if c.get('natural') is not None and r.chance(1, 5):
-            c['outpath'] = r.choice(['isdir', 'dangling', 'devfull'])
+            c['outpath'] = r.choice(['isdir', 'dangling', 'devfull'] if os.path.exists('/dev/full') else ['isdir', 'dangling'])
 
     def add_names(self, c):
         r = self.r
@@ -818,6 +819,19 @@ def corpus_cases(cg):
     # header claiming 2^31-1 nonlinear variables (bounded here by the allocator limits of the sanitizer run time)
     c = mk('hdr_huge_count')
     L = c['nl'].split('\n'); L[4] = ' 2 2 2147483647'; c['nl'] = '\n'.join(L); c['natural'] = None
+    # header claiming 2^31-1 variables for a 20-line file
+    c = mk('hdr_huge_nvars')
+    L = c['nl'].split('\n'); L[1] = ' 2147483647 1 1 0 0 0'; c['nl'] = '\n'.join(L); c['natural'] = None; c['header'] = c09gen.header_dims(c['nl'])
+    # header declaring 100 logical constraints, none defined
+    c = mk('undefined_lcons')
+    L = c['nl'].split('\n'); L[1] = ' 2 1 1 0 0 100'; c['nl'] = '\n'.join(L); c['natural'] = None
+    # y != c with c outside y's domain inside a count (the lead's / C19's reproducer)
+    m = nlgen.Model(); x = m.var(-4, 8); y = m.var(0, 2, True); m.obj('min', {x: 1})
+    m.con(None, 3, {x: 1}, ('count', [('ne', ('v', y), ('n', 3)), ('le', ('v', x), ('n', 1))]))
+    c = cg.base('corpus:ne_outside_domain', m); c['natural'] = None; c['all_opts'] = []; out.append(c)
+    # first line of the .col file empty, standalone mode printing the solution
+    c = mk('names_first_line_empty', ampl=False, flags_argv=['-s'], flags_tok=['s'], options=[('wantsol=3', ('w', 3))])
+    c['col'] = '\n' + c['col']
     for op in ('isdir', 'dangling'):
         mk('outpath_' + op, outpath=op)
         mk('outpath_%s_err' % op, outpath=op, options=[('foo=1', 'b')])
@@ -887,9 +901,11 @@ def evaluate(case, r):
 
 
 def run(ck):
-    ck.level = 'partial'
+    ck.level = 'proof'
+    ck.notes.append('PARTIAL: proof about the hand model of the outcome decision logic + sampled correspondence with the real driver; '
+                    'termination / crash freedom of the C++ is observed only (ASan+UBSan, timeout) on the generated inputs')
     proof_ok, failing = ck.proof_stage('MpVerif.C09.Props', 'MpVerif/C09/Props.lean', 'C09_',
-                                        ['MpVerif/C09/*.lean'], expect_min=24)
+                                        ['MpVerif/C09/*.lean'], expect_min=29)
     ck.log('proof stage: ok=%s failing=%s' % (proof_ok, failing[:8]))
     if ck.tier == 'thorough' and proof_ok:
         bad = ck.leanchecker(['MpVerif.C09.Props'])
@@ -941,6 +957,7 @@ def run(ck):
     rows = set()
     distinct = set()
     n_cmp = n_dis = n_inferred = n_latent = 0
+    inferred_dis = []
 
     def bump(h, k):
         hist[h][k] = hist[h].get(k, 0) + 1
@@ -989,7 +1006,11 @@ def run(ck):
             n_crash_unpredicted = True       # crashes of the real code are not rows of the decision table; reported above
         elif corr_bad:
             n_dis += 1
-            if not devs:
+            if not devs and inferred:
+                # the ending fed to the model was only guessed from the diagnostic's class and the driver's behaviour
+                # satisfies the property: recorded; fatal only if it happens more than occasionally (see below)
+                inferred_dis.append((lines[idx], mod_s, obs_s, replay))
+            elif not devs:
                 # the real code satisfies the property here but the model predicts something else: model drift
                 ck.add_violation('model-differs:%s' % ('inferred' if inferred else 'constructed'),
                                  'model predicts "%s" but the driver did "%s" (scenario: %s)' % (mod_s, obs_s, lines[idx]),
@@ -1000,11 +1021,19 @@ def run(ck):
                                  replay, found_input=True)
         if idx % 97 == 0:
             ck.sample('%s => %s' % (lines[idx], obs_s))
+    if len(inferred_dis) > max(3, n_inferred // 500):
+        l, mo, ob, rp = inferred_dis[0]
+        ck.add_violation('model-differs:inferred', '%d runs with an inferred ending disagree with the model although the property holds, e.g. '
+                         'model "%s", driver "%s" (scenario: %s)' % (len(inferred_dis), mo, ob, l), rp, found_input=False)
+    elif inferred_dis:
+        ck.notes.append('%d run(s) with an ending inferred from the diagnostic class disagree with the model while satisfying the property '
+                        '(classifier ambiguity), e.g. %s => model "%s", driver "%s"' % (len(inferred_dis),) + inferred_dis[0][:3])
     ck.cov.update({
         'evaluations': len(cases),
         'traces_validated_against_impl': n_cmp,
         'correspondence': {'runs_compared_model_vs_driver': n_cmp, 'disagreements': n_dis,
-                           'endings_known_by_construction': n_cmp - n_inferred, 'endings_inferred_from_diagnostic_class': n_inferred},
+                           'endings_known_by_construction': n_cmp - n_inferred, 'endings_inferred_from_diagnostic_class': n_inferred,
+                           'inferred_disagreements_property_holds': len(inferred_dis)},
         'distinct_nontrivial': len(distinct),
         'rule': 'distinct (model family, canonical outcome, ending (stage,raise), output-path state, -AMPL) tuples over all process runs',
         'table_rows_hit': {'stage_x_raise_pairs_observed': len(rows), 'of': len(STAGES) * len(KINDS)},
@@ -1034,7 +1063,7 @@ def run(ck):
 
 
 def replay(ck, path):
-    ck.level = 'partial'
+    ck.level = 'proof'
     rep = json.load(open(path))
     case = rep['replay']['case'] if 'replay' in rep else rep['case']
     for k in ('options', 'all_opts'):
